@@ -26,7 +26,7 @@ TIMEOUT = {'quick': 600, 'thorough': 3000}
 MIN_NONTRIVIAL = {'quick': 100, 'thorough': 3000}
 
 LIMIT_S = 20
-N_NET = {'quick': 450, 'thorough': 24000}
+N_NET = {'quick': 400, 'thorough': 24000}
 BATCH = 150
 MAX_TIMEOUTS = 3
 
